@@ -288,8 +288,58 @@ fn lying<const D: usize>(id: &str, rng: &mut Rng, out: &mut Out, np: usize) {
     out.end();
 }
 
+/// every batch constructor on inputs too small to triangulate, or that become too small once
+/// duplicates are removed: m = 0..D+1 distinct points, each 1-3 times, every dedup policy, all
+/// constructor APIs (plain, options, statistics twins, general, builder).  Only the outcome class
+/// travels: Ok or a typed Err are both fine, a panic is not.
+pub fn small_inputs<const D: usize>(id: &str, rng: &mut Rng, out: &mut Out) {
+    use delaunay::core::delaunay_triangulation::ConstructionOptions;
+    out.case(id, "adv", &format!("D={D} what=small_inputs"));
+    let base = gens::to_f(&gens::general_position(rng, D, D + 2, 6), 1.0, 0.0);
+    for m in 0..=(D + 1) {
+        for mult in [1usize, 2, 3] {
+            if m == 0 && mult > 1 { continue; }
+            let mut pts: Vec<[f64; D]> = Vec::new();
+            for p in base.iter().take(m) { for _ in 0..mult { pts.push(gens::arr::<D>(p)); } }
+            // near-duplicates (within every epsilon policy, outside exact equality) for mult = 3
+            if mult == 3 { for (i, p) in pts.iter_mut().enumerate() { if i % 3 == 2 { p[0] += 1e-13; } } }
+            rng.shuffle(&mut pts);
+            let plain: Vec<Vertex<f64, (), D>> = Vertex::from_points(&pts.iter().map(|p| Point::new(*p)).collect::<Vec<_>>());
+            let vs: Vec<Vertex<f64, tri::VData, D>> = pts.iter().enumerate().map(|(i, p)| Vertex::new_with_uuid(Point::new(*p), rng.uuid(), Some(i as i32))).collect();
+            for dedup in 0u8..4 {
+                let o = tri::Opts { order: (m as u8 + dedup) % 4, dedup, simplex: (mult % 2) as u8, retry: dedup % 4 };
+                let tag = format!("m{m}_x{mult}_d{dedup}");
+                let opts = || -> ConstructionOptions { o.build() };
+                if dedup == 0 {
+                    let (r, s) = timed(|| DelaunayTriangulation::<_, (), (), D>::new(&plain)); out.obs(&format!("small_new_{tag}"), &cls(&r, s));
+                    let (r, s) = timed(|| DelaunayTriangulation::<_, (), (), D>::new_with_construction_statistics(&plain)); out.obs(&format!("small_new_stats_{tag}"), &cls(&r, s));
+                }
+                let (r, s) = timed(|| DelaunayTriangulation::<_, (), (), D>::new_with_options(&plain, opts())); out.obs(&format!("small_opts_{tag}"), &cls(&r, s));
+                let (r, s) = timed(|| DelaunayTriangulation::<_, (), (), D>::new_with_options_and_construction_statistics(&plain, opts())); out.obs(&format!("small_opts_stats_{tag}"), &cls(&r, s));
+                for g in 0..3usize {
+                    let (r, s) = timed(|| DelaunayTriangulation::<FastKernel<f64>, tri::VData, tri::CData, D>::with_topology_guarantee_and_options(&FastKernel::new(), &vs, tri::guarantee(g), opts()));
+                    out.obs(&format!("small_general_g{g}_{tag}"), &cls(&r, s));
+                    let (r, s) = timed(|| DelaunayTriangulation::<FastKernel<f64>, tri::VData, tri::CData, D>::with_topology_guarantee_and_options_with_construction_statistics(&FastKernel::new(), &vs, tri::guarantee(g), opts()));
+                    out.obs(&format!("small_general_stats_g{g}_{tag}"), &cls(&r, s));
+                    let (r, s) = timed(|| DelaunayTriangulation::<RobustKernel<f64>, tri::VData, tri::CData, D>::with_topology_guarantee_and_options_with_construction_statistics(&RobustKernel::new(), &vs, tri::guarantee(g), opts()));
+                    out.obs(&format!("small_robust_stats_g{g}_{tag}"), &cls(&r, s));
+                }
+                let (r, s) = timed(|| delaunay::core::builder::DelaunayTriangulationBuilder::from_vertices(&vs).construction_options(opts()).build::<tri::CData>());
+                out.obs(&format!("small_builder_{tag}"), &cls(&r, s));
+            }
+        }
+    }
+    out.end();
+}
+
 pub fn run(cfg: &Cfg, rng: &mut Rng, out: &mut Out) {
     let thorough = cfg.tier == "thorough";
+    for i in 0..(if thorough { 3 } else { 1 }) {
+        small_inputs::<2>(&format!("sm2_{i}"), rng, out);
+        small_inputs::<3>(&format!("sm3_{i}"), rng, out);
+        small_inputs::<4>(&format!("sm4_{i}"), rng, out);
+        small_inputs::<5>(&format!("sm5_{i}"), rng, out);
+    }
     let n = if thorough { 200 } else { 24 };
     for i in 0..n {
         match 2 + (i % 4) {
